@@ -22,7 +22,8 @@ import (
 //   slc  <cont> <L> <C> <lo> <hi> <max>                        a[lo:hi(:max)]  bound = - | kind:c|v:val
 //   lit  <arr N|ell|slice> <elt>...                            elt = p | k<kind>:<key> | n
 //   heap <stmt>;<stmt>;...                                     mini-language over slices / arrays of int
-//   rich <go function body>                                    compiled Go vs gomacro only
+//   rich <name> <go function body>                             compiled Go vs gomacro only
+//   rej  <name> <go function body>                             compiled Go rejects it: gomacro must not yield a value
 //
 // Out: "ok <text>" | "panic" | "panic@<stmt>" (heap) | "cerr" (rejected at compile time).
 // Ops that compiled Go rejects (constant index out of range, duplicate literal index, ...) are not
@@ -515,6 +516,9 @@ func c08parse(op string) c08case {
 	case "rich":
 		name, body, _ := strings.Cut(rest, " ")
 		return c08case{body: body, goValid: true, class: "rich", tags: []string{"rich-" + name}}
+	case "rej": // a program compiled Go rejects: gomacro must not evaluate it to a value
+		name, body, _ := strings.Cut(rest, " ")
+		return c08case{body: body, goValid: false, class: "rej", tags: []string{"rej-" + name}}
 	}
 	return c08case{bad: true}
 }
@@ -692,6 +696,11 @@ func c08key(c c08case, op, got, want string) string {
 		wk = "panic"
 	}
 	shape := gk + "-for-" + wk
+	if gk == "cerr" && c.class == "heap" {
+		// (the message of a compile error inside a function literal is masked by gomacro:
+		// "unimplemented type: func() ..."; it cannot serve as key)
+		return "heap-" + shape
+	}
 	switch c.class {
 	case "idx":
 		// container, read/write, kind class of the index
@@ -722,6 +731,37 @@ func c08key(c c08case, op, got, want string) string {
 	return "rich-" + f[1] + "-" + shape
 }
 
+var c08lastErr string
+
+// c08errSlug: first words of a compile error message, positions / numbers / quoted text dropped
+func c08errSlug(msg string) string {
+	msg = strings.TrimPrefix(msg, "cerr ")
+	for i := 0; i < 3; i++ { // repl.go:1:23:
+		if j := strings.Index(msg, ":"); j >= 0 && j < 12 {
+			msg = strings.TrimSpace(msg[j+1:])
+		}
+	}
+	var words []string
+	cur := ""
+	for _, r := range msg {
+		if (r >= 'a' && r <= 'z') || (r >= 'A' && r <= 'Z') {
+			cur += string(r)
+			continue
+		}
+		if cur != "" {
+			words = append(words, cur)
+			cur = ""
+		}
+		if len(words) == 5 {
+			break
+		}
+	}
+	if cur != "" && len(words) < 5 {
+		words = append(words, cur)
+	}
+	return strings.Join(words, "-")
+}
+
 func c08kindClass(k string) string {
 	switch k {
 	case "int", "untyped":
@@ -736,10 +776,11 @@ func c08exec(op string) Result {
 		return Result{Out: "bad-op", Tags: []string{"bad-op"}}
 	}
 	raw := c08real(c.body)
+	c08lastErr = raw
 	got := c08canon(c.class, raw)
 	res := Result{Out: got, Tags: append(c.tags, c.class, c.class+"-"+strings.Fields(got)[0]), Nontrivial: true}
-	if c.class == "rich" {
-		res.Out = "rich"
+	if c.class == "rich" || c.class == "rej" {
+		res.Out = c.class
 	}
 	if got == "escaped" {
 		res.Viol, res.Key = "panic escaped the interpreted recover: "+raw, c.class+"-escaped-panic"
@@ -971,6 +1012,9 @@ func c08gen(r *rand.Rand, tier string, emit func(string)) {
 	}
 	for i := 0; i < 300*mult; i++ {
 		emit("heap " + c08genHeap(r))
+	}
+	for _, p := range c08rejected {
+		emit("rej " + p)
 	}
 	// (6) rich programs (outside the model)
 	for i := 0; i < 8*mult; i++ {
